@@ -374,6 +374,66 @@ pub fn configs(prop: &str, thorough: bool) -> Vec<(Cfg, Option<usize>)> {
                     out.push((c, None));
                 }
             }
+            // one voter named in two spellings of its address
+            {
+                let mut c = Cfg::base("C06/fixed/A1,B1,^A2(two spellings)/Count(1)", false);
+                c.props = p.clone();
+                c.actors = vec!["A", "B", "C", "X", "^A"];
+                c.voters = vec![(0, 1), (1, 1), (4, 2)];
+                c.th = Th::Count(1);
+                c.proposers = vec![0, 1];
+                c.votes = vec![VoteA::Yes, VoteA::No];
+                c.voters_acting = vec![0, 1];
+                c.executors = vec![3];
+                c.closers = vec![3];
+                c.blocks = 2;
+                out.push((c, None));
+            }
+            // more voters than the largest page (30): totals, ballots and eligibility of the last ones in address order
+            for flex in [false, true] {
+                let names: Vec<&'static str> = vec![
+                    "V00", "V01", "V02", "V03", "V04", "V05", "V06", "V07", "V08", "V09", "V10", "V11", "V12", "V13", "V14", "V15", "V16",
+                    "V17", "V18", "V19", "V20", "V21", "V22", "V23", "V24", "V25", "V26", "V27", "V28", "V29", "V30", "V31", "V32", "ADM",
+                ];
+                let mut c = Cfg::base(&format!("C06/{}/33-voters/Count(17)", if flex { "flex" } else { "fixed" }), flex);
+                c.props = Props { c06: true, c03: true, ..Default::default() };
+                c.actors = names.clone();
+                // the three voters that sort last by ADDRESS (whatever their labels) are among the actors that act
+                let mut by_addr: Vec<u8> = (0..33u8).collect();
+                by_addr.sort_by_key(|i| mc::world::addr_cached(names[*i as usize]));
+                c.voters = (0..33u8).map(|i| (i, 1 + (i as u64 % 2))).collect();
+                c.group_admin = 33;
+                c.th = Th::Count(17);
+                c.proposers = vec![by_addr[0], by_addr[32]];
+                c.votes = vec![VoteA::Yes];
+                c.voters_acting = vec![by_addr[1], by_addr[30], by_addr[31], by_addr[32]];
+                c.executors = vec![by_addr[0]];
+                c.closers = vec![];
+                c.blocks = 1;
+                if flex {
+                    c.edits = vec![GroupEdit { remove: vec![], add: vec![(by_addr[32], 5)] }, GroupEdit { remove: vec![by_addr[31]], add: vec![] }];
+                    c.editors = vec![33];
+                    c.max_edits = 1;
+                    c.hooked = true;
+                }
+                out.push((c, Some(4)));
+            }
+            // the expiry instant inside a second (sub-second block times): votes just before / at / after it
+            for flex in [false, true] {
+                let mut c = Cfg::base(&format!("C06/{}/A1,B1,C1/Count(2)/sub-second-clock", if flex { "flex" } else { "fixed" }), flex);
+                c.props = Props { c06: true, c03: true, ..Default::default() };
+                c.th = Th::Count(2);
+                c.period = Per::T(1);
+                c.tick_ns = 600_000_000;
+                c.proposers = vec![0];
+                c.latest = vec![LatestA::Unset, LatestA::Shorter];
+                c.votes = vec![VoteA::Yes, VoteA::No];
+                c.voters_acting = vec![1, 2, 3];
+                c.executors = vec![3];
+                c.closers = vec![3];
+                c.blocks = 4;
+                out.push((c, None));
+            }
             // flex: group edits placed before / in the same block as / after proposals and votes
             let edits = vec![
                 GroupEdit { remove: vec![1], add: vec![] },
@@ -466,7 +526,7 @@ pub fn configs(prop: &str, thorough: bool) -> Vec<(Cfg, Option<usize>)> {
                                 c.allow_amts = vec![1, 2, 3];
                                 c.max_allow = 4;
                             } else {
-                                c.funds = vec![vec![], vec![(0, 1)], vec![(0, 2)], vec![(0, 3)], vec![(1, 1)], vec![(0, 2), (1, 1)]];
+                                c.funds = vec![vec![], vec![(0, 1)], vec![(0, 2)], vec![(0, 3)], vec![(1, 1)], vec![(0, 2), (1, 1)], vec![(0, 0), (1, 1)], vec![(0, 0), (1, 2)]];
                             }
                             out.push((c, None));
                         }
